@@ -1,9 +1,11 @@
 import TsVerif.C10.Text
+import TsVerif.C10.Spans
+import TsVerif.C10.Judge
 /-!
 # C10 — the edit keeps a tree consistent with the text (row/column dimension, main induction)
 
 `editTree_cons`: if a subtree at old frame `A` is consistent with the old text `T` (`Cons T t A`) and
-the `Edit` it receives is the text change expressed in its frame (`Form`), the edited subtree is
+the `Edit` it receives is the text change expressed in its frame (`TForm`), the edited subtree is
 consistent with the new text `T'` at its new frame `A'`.  Mutual induction over `editTree` and the
 child loop `editKids` in its two states (before / after the inserted text has been attributed to a
 child), mirroring `editTree_bytes` (Bytes.lean).
@@ -100,7 +102,7 @@ theorem consL_shift {T T' : List Nat} {S O N : Nat} (hc : Chg T T' S O N) (ks : 
 /-- The `Edit` received by the frame at old byte `A` / new byte `A'`: the change `(S, O, N)` in
 that frame's coordinates.  Either the frame starts at or before the change and stays (`A' = A`), or
 an earlier sibling already took the inserted text and the frame moves by φ. -/
-structure Form (T T' : List Nat) (S O N A A' : Nat) (e : Edit) : Prop where
+structure TForm (T T' : List Nat) (S O N A A' : Nat) (e : Edit) : Prop where
   hs : e.start = lenS T A S
   ho : e.old_end = lenS T A O
   hn : e.new_end = lenS T' A' N
@@ -214,7 +216,7 @@ theorem reshape_consumed {T T' : List Nat} {S O N : Nat} (hc : Chg T T' S O N) {
 
 /-- Both forms at once. -/
 theorem reshape_cons {T T' : List Nat} {S O N : Nat} (hc : Chg T T' S O N) {A A' : Nat} {p z : Length} {e : Edit}
-    (hn : NodeCons T A p z) (hf : Form T T' S O N A A' e) :
+    (hn : NodeCons T A p z) (hf : TForm T T' S O N A A' e) :
     NodeCons T' A' (reshape p z e).1 (reshape p z e).2 := by
   obtain ⟨hb, hp, hz⟩ := hn
   obtain ⟨hs, ho, hne, hpos⟩ := hf
@@ -245,7 +247,7 @@ theorem noop_tb (c : Tree) (x : Length) (hw : WFb c) :
 set_option maxHeartbeats 1600000 in
 mutual
   theorem editTree_cons : ∀ (t : Tree) (e : Edit) (T T' : List Nat) (S O N A A' : Nat),
-      Chg T T' S O N → WFb t → Cons T t A → Form T T' S O N A A' e → Cons T' (editTree t e) A'
+      Chg T T' S O N → WFb t → Cons T t A → TForm T T' S O N A A' e → Cons T' (editTree t e) A'
     | .mk d ks, e, T, T', S, O, N, A, A', hc, hw, hcons, hf => by
       have hso := hc.so; have hot := hc.ot; have hsn := hc.sn; have hl := hc.len
       have hcons' := hcons
@@ -266,7 +268,7 @@ mutual
       split
       · rename_i hr0
         rcases hpos with ⟨h1, h2⟩ | ⟨h1, h2⟩
-        · subst h2
+        · rw [h2]
           exact cons_keep hc _ A hw hcons
             (by simp only [tb_mk]; rcases hr0 with h | ⟨⟨ha, hb'⟩, hc'⟩ <;> omega)
         · rw [h2]
@@ -282,7 +284,7 @@ mutual
           rw [e1, e2]
           exact ⟨rb, rp, rz⟩
         · rcases hpos with ⟨h1, h2⟩ | ⟨h1, h2⟩
-          · subst h2
+          · rw [h2] at hn ⊢
             exact editKidsA_cons ks _ e.new_end length_zero 0 T T' S O N A A hc hwl hkids
               (Nat.le_refl _) h1 hs ho hn (lenS_zero T A A (Nat.le_refl _)).symm rfl (fun _ => rfl)
           · have hn0 : e.new_end = length_zero := by rw [hn]; exact lenS_zero _ _ _ (by omega)
@@ -338,7 +340,7 @@ mutual
           · rename_i htake
             rw [hpure] at htake
             simp only [decide_eq_true_eq] at htake
-            have hform : Form T T' S O N Al Al
+            have hform : TForm T T' S O N Al Al
                 { start := length_saturating_sub cx.start l
                   old_end := length_saturating_sub cx.oldEnd l
                   new_end := length_saturating_sub ne l } :=
@@ -369,7 +371,7 @@ mutual
             simp only [decide_eq_true_eq] at htake
             have hx : length_saturating_sub cx.start l = lenS T Al S := by
               rw [hs, hl]; exact sat_lenS T Ap S Al hAp (by omega) (by omega)
-            have hform : Form T T S S S Al Al
+            have hform : TForm T T S S S Al Al
                 { start := length_saturating_sub cx.start l
                   old_end := length_saturating_sub cx.start l
                   new_end := length_saturating_sub cx.start l } :=
@@ -423,7 +425,7 @@ mutual
             (Al + tb c) hc hwr hcr (by omega) (by omega) (by omega) hs ho hl' hpure rfl
           split
           · rename_i htake
-            have hform : Form T T' S O N Al (N + (Al - O))
+            have hform : TForm T T' S O N Al (N + (Al - O))
                 { start := length_saturating_sub cx.start l
                   old_end := length_saturating_sub cx.oldEnd l
                   new_end := length_saturating_sub cx.start l } :=
@@ -455,7 +457,7 @@ mutual
             simp only [decide_eq_true_eq] at htake
             have hx0 : length_saturating_sub cx.start l = lenS T Al Al := by
               rw [hx, lenS_zero T Al S (by omega), lenS_zero T Al Al (Nat.le_refl _)]
-            have hform : Form T T Al Al Al Al Al
+            have hform : TForm T T Al Al Al Al Al
                 { start := length_saturating_sub cx.start l
                   old_end := length_saturating_sub cx.start l
                   new_end := length_saturating_sub cx.start l } :=
@@ -471,5 +473,171 @@ mutual
               have : N + (Al - O) + tb c = N + (Al + tb c - O) := by omega
               rw [this]; exact ihr
 end
+
+
+/-! ## Absolute positions with row/column, as the runtime computes them -/
+
+mutual
+  /-- Preorder list of the (content start, content end) positions of every node **as `Length`s**
+  (bytes and row/column), computed the way the runtime does (`ts_node_start_point`, tree cursor):
+  by `length_add`-ing relative lengths from the frame position `off`. -/
+  def pts : Tree → Length → List (Length × Length)
+    | .mk d ks, off =>
+      (length_add off d.padding, length_add (length_add off d.padding) d.size) :: ptsL ks off
+  def ptsL : List Tree → Length → List (Length × Length)
+    | [], _ => []
+    | c :: rest, off => pts c off ++ ptsL rest (length_add off c.totalSize)
+end
+
+def bytesOf (p : Length × Length) : Span := (p.1.bytes, p.2.bytes)
+
+mutual
+  theorem pts_bytes : ∀ (t : Tree) (off : Length), (pts t off).map bytesOf = spans t off.bytes
+    | .mk d ks, off => by
+      simp only [pts, spans, List.map_cons, bytesOf, length_add_bytes, ptsL_bytes ks off]
+  theorem ptsL_bytes : ∀ (ks : List Tree) (off : Length), (ptsL ks off).map bytesOf = spansL ks off.bytes
+    | [], _ => by simp only [ptsL, spansL, List.map_nil]
+    | c :: rest, off => by
+      simp only [ptsL, spansL, List.map_append, pts_bytes c off, ptsL_bytes rest (length_add off c.totalSize),
+        length_add_bytes, totalSize_bytes]
+end
+
+/-- A position that is what the text says: its row/column is the extent of the text before it. -/
+def AbsOK (T : List Nat) (x : Length) : Prop := x = lenS T 0 x.bytes ∧ x.bytes ≤ T.length
+
+theorem AbsOK.of {T : List Nat} {x : Length} (m : Nat) (h : x = lenS T 0 m) (hm : m ≤ T.length) : AbsOK T x := by
+  have hb : x.bytes = m := by rw [h, lenS_bytes T 0 m hm]; omega
+  unfold AbsOK
+  rw [hb]; exact ⟨h, hm⟩
+
+theorem lenS_zero_eq_take (T : List Nat) (n : Nat) : lenS T 0 n = lengthOf (T.take n) := by
+  unfold lenS slice
+  simp only [List.drop_zero, Nat.sub_zero]
+
+mutual
+  theorem pts_cons : ∀ (t : Tree) (T : List Nat) (A : Nat) (off : Length), Cons T t A → off = lenS T 0 A →
+      ∀ p ∈ pts t off, AbsOK T p.1 ∧ AbsOK T p.2 ∧ p.1.bytes ≤ p.2.bytes
+    | .mk d ks, T, A, off, hc, hoff, p, hp => by
+      simp only [Cons] at hc
+      obtain ⟨⟨hb, hpd, hz⟩, hk⟩ := hc
+      simp only [pts, List.mem_cons] at hp
+      rcases hp with hp | hp
+      · subst hp
+        have e1 : length_add off d.padding = lenS T 0 (A + d.padding.bytes) := by
+          rw [hoff]
+          exact (congrArg (length_add (lenS T 0 A)) hpd).trans (lenS_add T 0 A _ (by omega) (by omega))
+        have e2 : length_add (length_add off d.padding) d.size = lenS T 0 (A + d.padding.bytes + d.size.bytes) := by
+          rw [e1]
+          exact (congrArg (length_add (lenS T 0 (A + d.padding.bytes))) hz).trans
+            (lenS_add T 0 _ _ (by omega) (by omega))
+        exact ⟨AbsOK.of _ e1 (by omega), AbsOK.of _ e2 hb, by simp only [length_add_bytes]; omega⟩
+      · exact ptsL_cons ks T A off hk hoff p hp
+  theorem ptsL_cons : ∀ (ks : List Tree) (T : List Nat) (A : Nat) (off : Length), ConsL T ks A → off = lenS T 0 A →
+      ∀ p ∈ ptsL ks off, AbsOK T p.1 ∧ AbsOK T p.2 ∧ p.1.bytes ≤ p.2.bytes
+    | [], _, _, _, _, _, p, hp => by simp [ptsL] at hp
+    | c :: rest, T, A, off, hc, hoff, p, hp => by
+      simp only [ConsL] at hc
+      simp only [ptsL, List.mem_append] at hp
+      rcases hp with hp | hp
+      · exact pts_cons c T A off hc.1 hoff p hp
+      · refine ptsL_cons rest T (A + tb c) (length_add off c.totalSize) hc.2 ?_ p hp
+        rw [hoff, hc.1.total.1, lenS_add T 0 A (A + tb c) (by omega) (by omega)]
+end
+
+theorem All2.of_map {α β γ δ : Type} {R : γ → δ → Prop} (f : α → γ) (g : β → δ) :
+    ∀ (xs : List α) (us : List β), All2 R (xs.map f) (us.map g) → All2 (fun a b => R (f a) (g b)) xs us
+  | [], [], _ => All2.nil
+  | [], _ :: _, h => by cases h
+  | _ :: _, [], h => by cases h
+  | x :: xs, u :: us, h => by
+    cases h with
+    | cons h1 h2 => exact All2.cons h1 (All2.of_map f g xs us h2)
+
+theorem All2.mono2 {α β : Type} {R S : α → β → Prop} {xs : List α} {us : List β}
+    (h : All2 R xs us) (hRS : ∀ a b, a ∈ xs → b ∈ us → R a b → S a b) : All2 S xs us := by
+  induction h with
+  | nil => exact All2.nil
+  | cons h _ ih =>
+    refine All2.cons (hRS _ _ (by simp) (by simp) h) (ih ?_)
+    intro a b ha hb; exact hRS a b (by simp [ha]) (by simp [hb])
+
+/-! ## The Boolean checker is sound -/
+
+mutual
+  theorem consCheckAt_sound : ∀ (t : Tree) (T : List Nat) (A : Nat), A ≤ T.length →
+      consCheckAt (T.drop A) t = true → Cons T t A
+    | .mk d ks, T, A, hA, h => by
+      simp only [consCheckAt, Bool.and_eq_true, decide_eq_true_eq, List.length_drop] at h
+      obtain ⟨⟨⟨h1, h2⟩, h3⟩, h4⟩ := h
+      simp only [Cons]
+      refine ⟨⟨by omega, ?_, ?_⟩, consCheckAtL_sound ks T A hA h4⟩
+      · refine h2.trans ?_
+        unfold lenS slice
+        rw [show A + d.padding.bytes - A = d.padding.bytes by omega]
+      · refine h3.trans ?_
+        unfold lenS slice
+        rw [List.drop_drop,
+          show A + d.padding.bytes + d.size.bytes - (A + d.padding.bytes) = d.size.bytes by omega]
+  theorem consCheckAtL_sound : ∀ (ks : List Tree) (T : List Nat) (A : Nat), A ≤ T.length →
+      consCheckAtL (T.drop A) ks = true → ConsL T ks A
+    | [], _, _, _, _ => by simp only [ConsL]
+    | c :: rest, T, A, hA, h => by
+      simp only [consCheckAtL, Bool.and_eq_true] at h
+      have hc := consCheckAt_sound c T A hA h.1
+      simp only [ConsL]
+      refine ⟨hc, consCheckAtL_sound rest T (A + tb c) hc.total.2 ?_⟩
+      have := h.2
+      rw [List.drop_drop] at this
+      exact this
+end
+
+
+/-! ## The root edit and edit histories -/
+
+/-- The root `Edit` describes the text change "replace bytes `[S, O)` of `T` by `ins`": its three
+positions are the bytes *and the row/column* of `S`, `O` in the old text and `S + |ins|` in the new. -/
+structure EditOK (T ins : List Nat) (S O : Nat) (e : Edit) : Prop where
+  so : S ≤ O
+  ot : O ≤ T.length
+  start : e.start = lenS T 0 S
+  old_end : e.old_end = lenS T 0 O
+  new_end : e.new_end = lenS (splice T ins S O) 0 (S + ins.length)
+
+theorem EditOK.bytes {T ins : List Nat} {S O : Nat} {e : Edit} (h : EditOK T ins S O e) :
+    e.start.bytes = S ∧ e.old_end.bytes = O ∧ e.new_end.bytes = S + ins.length := by
+  have := h.so; have := h.ot
+  have hl := splice_length T ins S O h.so h.ot
+  refine ⟨?_, ?_, ?_⟩
+  · rw [h.start, lenS_bytes _ _ _ (by omega)]; omega
+  · rw [h.old_end, lenS_bytes _ _ _ (by omega)]; omega
+  · rw [h.new_end, lenS_bytes _ _ _ (by omega)]; omega
+
+theorem EditOK.editB {T ins : List Nat} {S O : Nat} {e : Edit} (h : EditOK T ins S O e) : EditB e := by
+  obtain ⟨h1, h2, h3⟩ := h.bytes
+  have := h.so
+  unfold EditB; omega
+
+/-- One step of an edit history: the `Edit` handed to the tree and the text change it stands for. -/
+structure TextEdit where
+  e : Edit
+  ins : List Nat
+  S : Nat
+  O : Nat
+
+def applyText (T : List Nat) (x : TextEdit) : List Nat := splice T x.ins x.S x.O
+def applyEdit (t : Tree) (x : TextEdit) : Tree := editTree t x.e
+
+/-- Every edit of the history is `EditOK` w.r.t. the text current at that moment. -/
+def HistOK : List Nat → List TextEdit → Prop
+  | _, [] => True
+  | T, x :: xs => EditOK T x.ins x.S x.O x.e ∧ HistOK (applyText T x) xs
+
+/-- kept / shifted for one node with row/column: `p` = (start, end) before, `q` = after. -/
+def RelP (T T' : List Nat) (S O N : Nat) (p q : Length × Length) : Prop :=
+  ((p.2.bytes < S ∨ (p.2.bytes = S ∧ O ≠ S)) → q = p) ∧
+  (O ≤ p.1.bytes →
+    q.1.bytes = N + (p.1.bytes - O) ∧ q.2.bytes = N + (p.2.bytes - O) ∧
+    q.1.extent = extent (T'.take q.1.bytes) ∧ q.2.extent = extent (T'.take q.2.bytes) ∧
+    slice T' q.1.bytes q.2.bytes = slice T p.1.bytes p.2.bytes)
 
 end TsVerif.C10
